@@ -122,6 +122,19 @@ Arguments IFault {L R B A}. Arguments IExc {L R B A}.
 Arguments I : clear implicits.
 Arguments ires : clear implicits.
 
+(* a call of a translated function that has its own locals: run `body` from `init l`, fold what its locals
+   hold at the end (on EVERY exit) back into the caller's with `fin`; Partial / Err / Fault of the callee
+   end the caller (`complete!`) *)
+Definition isub {L R B L2 R2 B2} (body : I L2 R2 B2 R2) (init : L -> L2) (fin : L2 -> L -> L) : I L R B R2 :=
+  fun l c =>
+  match ifun body (init l) c with
+  | IDone n lh c' => IDone n (fin lh l) c'
+  | IPart lh => IPart (fin lh l)
+  | IFail e lh => IFail e (fin lh l)
+  | IFault f lh => IFault f (fin lh l)
+  | IExc _ lh _ => IFault Unreachable (fin lh l)
+  end.
+
 Declare Scope imp_scope.
 Delimit Scope imp_scope with imp.
 Notation "x <~ m ;; k" := (ibind m (fun x => k))
